@@ -16,3 +16,10 @@ def check(ctx, rep):
         "flattened list.")
     rep.trusted = ["T8 set/list semantics"]
     buildrules.construction(ctx, rep, "R19.1", "R19.2", "R19.3", "R19.4", "R19.5")
+    from . import common
+    p, r = ctx.prog, ctx.roles
+    funcs = [p.supplier(r.jobbase, 'requires'), p.supplier(r.jobbase, '_add_one_requirement'),
+             p.supplier(r.sched, 'update'), p.supplier(r.sched, 'add')] + \
+        (list(r.sequence.methods.values()) if r.sequence else [])
+    common.job_truthiness(ctx, rep, "R19.6", funcs)
+    common.no_state_across_calls(ctx, rep, "R19.7", funcs)
